@@ -143,6 +143,16 @@ Theorem C01_iv_send :
 Proof. exact aead_send_iv. Qed.
 Print Assumptions C01_iv_send.
 
+(* send side: for every script of socket behaviour (partial sends of any size, timeouts, EAGAIN,
+   errors, in any order) write_all hands the socket exactly the packet, in order, when it returns,
+   and a prefix of it when it raises EOFError: nothing skipped, duplicated or merged *)
+Theorem C01_write_all :
+  forall evs out iters written,
+    (snd (write_all out iters evs written) = true -> fst (write_all out iters evs written) = written ++ out) /\
+    (exists t, written ++ out = fst (write_all out iters evs written) ++ t).
+Proof. exact write_all_exact. Qed.
+Print Assumptions C01_write_all.
+
 (* non-vacuity: the laws are satisfiable, and a concrete keyed pair is in sync in each mode *)
 Example C01_laws_satisfiable : prims_ok idP (fun _ _ _ => True) (fun _ _ => True).
 Proof. exact idP_ok. Qed.
